@@ -23,6 +23,7 @@ fn field_slice<W: Word, T: BitFieldSlice<W> + BitFieldSliceCore<W>>() {}
 fn seq<T: IndexedSeq + Types>() {}
 fn dict<T: Types<Input = usize, Output = usize> + IndexedDict + Succ + Pred + SuccUnchecked + PredUnchecked + IndexedSeq>() {}
 fn as_words<T: AsRef<[usize]>>() {}
+fn indexable<T: core::ops::Index<usize, Output = bool>>() {}
 
 type BV = BitVec<Vec<usize>>;
 type BB = BitVec<Box<[usize]>>;
@@ -179,4 +180,40 @@ pub fn w_iter<'a>(
         s += x;
     }
     s + ef.len() + ef.get(0)
+}
+
+
+/// `x[i]` on the loaded images of bit vectors and of everything that delegates `Index` to one.
+pub fn w_index<'a>() {
+    indexable::<BV>();
+    indexable::<Eps<'a, BV>>();
+    indexable::<Eps<'a, BB>>();
+    indexable::<Eps<'a, Rank9<BV>>>();
+    indexable::<Eps<'a, RankSmall<2, 9, BV>>>();
+    indexable::<Eps<'a, Select9<Rank9<BV>>>>();
+    indexable::<Eps<'a, SelectAdapt<Rank9<BV>>>>();
+    indexable::<Eps<'a, SelectAdaptConst<AddNumBits<BV>>>>();
+    indexable::<Eps<'a, SelectZeroAdapt<AddNumBits<BV>>>>();
+    indexable::<Eps<'a, SelectSmall<2, 9, RankSmall<2, 9, BV>>>>();
+    indexable::<Eps<'a, SelectZeroSmall<2, 9, RankSmall<2, 9, BV>>>>();
+}
+
+/// The inherent `len()` of the wrappers ("provided to reduce ambiguity in method resolution") must exist on the
+/// loaded images too: with the traits of the prelude in scope a missing inherent method makes the call ambiguous
+/// (or resolves it to another trait's `len`).
+pub fn w_inherent_len<'a>(
+    a: &Eps<'a, Rank9<BV>>,
+    b: &Eps<'a, RankSmall<2, 9, BV>>,
+    c: &Eps<'a, Select9<Rank9<BV>>>,
+    d: &Eps<'a, SelectAdapt<Rank9<BV>>>,
+    e: &Eps<'a, SelectAdaptConst<AddNumBits<BV>>>,
+    f: &Eps<'a, SelectZeroAdapt<AddNumBits<BV>>>,
+    g: &Eps<'a, SelectZeroAdaptConst<AddNumBits<BV>>>,
+    h: &Eps<'a, SelectSmall<2, 9, RankSmall<2, 9, BV>>>,
+    i: &Eps<'a, SelectZeroSmall<2, 9, RankSmall<2, 9, BV>>>,
+    j: &Eps<'a, BV>,
+    k: &Eps<'a, EfSeq>,
+    l: &Eps<'a, RearCodedList>,
+) -> usize {
+    a.len() + b.len() + c.len() + d.len() + e.len() + f.len() + g.len() + h.len() + i.len() + j.len() + k.len() + l.len()
 }
